@@ -528,6 +528,43 @@ Proof.
   split; [right; left; reflexivity|]. split; [reflexivity|]. split; [cbn; lia|]. cbn. intros H. exact H.
 Qed.
 
+(* ------------------------------------------------------------------ identity = file name, whatever is declared *)
+
+Lemma registered_is_started decl oc ds : registered false decl oc ds = started oc ds.
+Proof.
+  unfold registered, started, register_plugin. induction ds as [|p r IH]; [reflexivity|].
+  cbn [flat_map filter]. rewrite IH. destruct (launches (oc p) && starts (oc p))%bool; reflexivity.
+Qed.
+
+(* C18_identity_is_file_name: whatever name and index each launched plugin declares when it registers (another valid
+   index, an empty name, a malformed index), r.plugins after Start is what the file names alone determine *)
+Theorem declared_identity_irrelevant decl oc ds : start_plugins_declared decl oc ds = start_plugins oc ds.
+Proof. unfold start_plugins_declared, start_plugins. rewrite registered_is_started. reflexivity. Qed.
+
+(* C18_invocation_order_by_file_name: the plugins an event reaches, and their order, are the same function of the
+   directory for any two assignments of declared identities *)
+Theorem invocation_independent_of_declared decl decl' oc ds alive :
+  invoked alive (start_plugins_declared decl oc ds) = invoked alive (start_plugins_declared decl' oc ds).
+Proof. rewrite !declared_identity_irrelevant. reflexivity. Qed.
+
+(* The variant that treats every registering plugin like an external one is refuted: a plugin declaring another
+   index moves in the order, and one declaring an empty name or a malformed index is lost *)
+Definition start_plugins_all_validated (decl : discovered -> string * string) (oc : discovered -> outcome)
+    (ds : list discovered) : list discovered :=
+  sort_plugins (synced oc (registered true decl oc ds)).
+
+Theorem all_validated_refuted : exists decl oc ds,
+  map d_name (start_plugins oc ds) = ["10-x"; "20-y"; "30-z"; "40-w"] /\
+  map d_name (start_plugins_all_validated decl oc ds) = ["20-y"; "30-z"; "90-x"].
+Proof.
+  exists (fun p => if String.eqb (d_base p) "x" then ("x", "90")
+                   else if String.eqb (d_base p) "w" then ("w", "9") else (d_base p, d_idx p)),
+         (fun _ => OGood),
+         [ {| d_idx := "10"; d_base := "x"; d_cfg := "" |}; {| d_idx := "20"; d_base := "y"; d_cfg := "" |};
+           {| d_idx := "30"; d_base := "z"; d_cfg := "" |}; {| d_idx := "40"; d_base := "w"; d_cfg := "" |} ].
+  split; reflexivity.
+Qed.
+
 (* ------------------------------------------------------------------ invocation order *)
 
 Definition num_le (a b : discovered) : Prop := (idx_num (d_idx a) <= idx_num (d_idx b))%Z.
